@@ -27,6 +27,7 @@ import (
 	"github.com/cockroachdb/logtags"
 	pkgerrors "github.com/pkg/errors"
 	"google.golang.org/grpc/codes"
+	grpcstatus "google.golang.org/grpc/status"
 
 	"verifharness/internal/tok"
 	"verifharness/internal/utypes"
@@ -132,6 +133,7 @@ func init() {
 	Fam2Ty["io/fs/*fs.PathError"] = "fsPathError"
 	reg("osLinkError", &os.LinkError{Op: "o", Old: "a", New: "b", Err: base})
 	reg("osSyscallError", os.NewSyscallError("s", base))
+	reg("grpcStatus", grpcstatus.Error(codes.NotFound, "x"))
 	reg("uPtrLeaf", &utypes.UPtrLeaf{})
 	reg("uValLeaf", utypes.UValLeaf{})
 	reg("uRegLeaf", &utypes.URegLeaf{})
@@ -193,6 +195,9 @@ func init() {
 	fl := errors.FlattenHints(errors.WithHint(errors.WithHint(base, "\x01"), "\x02"))
 	tok.RegisterLiteral("L_DashDash", fl[1:len(fl)-1])
 	tok.RegisterLiteral("L_NoDomain", string(errors.NoDomain))
+	if st := grpcstatus.Error(codes.NotFound, "\x01").Error(); strings.HasSuffix(st, "\x01") {
+		tok.RegisterLiteral("L_rpcNotFound", st[:len(st)-1])
+	}
 	// detail literals of the library's wrappers in %+v entries, from samples:
 	// "x\n(1) <detail>\nWraps: (2) x\nError types: ..."
 	detail := func(sample error) string {
